@@ -173,6 +173,14 @@ def _ops():
     op("g_replace_params", "G")(lambda L, a, k, e: a[0].replace_params(tuple(0.25 * (i + 1) for i in range(len(a[0].params)))))
     op("g_eq", "G", "G")(lambda L, a, k, e: a[0] == a[1])
     op("g_to_dict", "G")(lambda L, a, k, e: L["to_dict"](a[0]))
+    # compositions: what a derived object DOES must not depend on what its source was asked before (a bound / re-parametrised
+    # gate evaluated straight away; compared with the same composition on pristine twins by the history-independence check)
+    op("g_bind_matrix", "G", "SM")(lambda L, a, k, e: a[0].bind(a[1]).matrix)
+    op("g_replace_matrix", "G")(lambda L, a, k, e: a[0].replace_params(tuple(0.25 * (i + 1) for i in range(len(a[0].params)))).matrix)
+    op("g_wrap_matrix", "G")(lambda L, a, k, e: [a[0].dagger, a[0].controlled(1)][k[0] % 2].matrix)
+    op("c_bind_unitary", "C", "SM")(lambda L, a, k, e: _sim_ok(a[0]).bind(a[1]).to_unitary())
+    op("c_bind_wf", "C", "SM")(lambda L, a, k, e: e["sim"]().get_wavefunction(_sim_ok(a[0]).bind(a[1])))
+    op("c_inverse_unitary", "C")(lambda L, a, k, e: _sim_ok(a[0]).inverse().to_unitary())
     # ---- simulators (RNG seam: same stream for both calls)
     op("sim_wf", "C")(lambda L, a, k, e: e["sim"]().get_wavefunction(_sim_ok(a[0])))
     op("sim_wf_init", "C", "V")(lambda L, a, k, e: e["sim"]().get_wavefunction(_sim_ok(a[0]), a[1]))
